@@ -83,6 +83,25 @@ CHECKS["C15"] = {
     "note": "Trusted: separating-axis theorem for a segment and an axis-aligned box; NumPy element-wise arithmetic.",
 }
 
+CHECKS["C02"] = {
+    "engine": "sa",
+    "category": "translation_validation",
+    "technique": "translation validation by normal form: value-numbered terms of port vs vendored reference under a fixed rewrite set; definite-failure lint; IK flag shape",
+    "design_ref": "DESIGN.md section 2.1 E6 and section 4 C02",
+    "text": ("For each of the 47 functions shared with modern_robotics 1.1.1 (vendored copy) decides, for all well-typed "
+             "inputs at once, that the port computes the same value expression as the reference: both bodies are "
+             "normalised (locals forward-substituted, branches -> ite, loops -> canonical dependency-ordered loop terms, "
+             "np.r_/np.c_/literal/eye+slice-store assembly -> one block normal form) under the semantics-preserving "
+             "rewrites N1..N16 and must be identical; plus API-surface agreement, a definite-failure lint (unbound names, "
+             "NumPy attributes absent from the installed NumPy, over-ranked subscripts) and the structural clause of "
+             "'reported IK success meets the tolerances'. A behaviour-preserving refactor that needs an equivalence outside "
+             "N1..N16 would be reported as DIFFERENT (stated false-alarm exposure; renames, temporaries, reordering of "
+             "independent stores, r_/c_ vs slice stores, dot vs @ are covered and part of the benign-twin self-test). "
+             "Agreement of compiled floating-point results to 1e-9 is not decided."),
+    "note": ("Trusted: the vendored reference as the semantics; Numba compiles the accepted NumPy subset with NumPy "
+             "semantics; shape contracts in sa/engine/mrspec.py; NumPy type stub as attribute oracle."),
+}
+
 _PENDING = "rule module not yet built in this round (see DESIGN.md section 4 for the planned static rules)"
 for _i in range(1, 21):
     _p = "C%02d" % _i
